@@ -24,7 +24,7 @@ ASSUMPTIONS = [
     'for Sample(n) the selected rows are Sample.indices(len) (checked here against the sample definition of C15: min(n,len) indices from 0, '
     'strictly increasing, gaps differing by at most one) and every row must equal the model frame at that index',
     'CHANNEL/FRAME sets avoid the F3 mechanisms of C03 (no invariant attributes, no component-less objects, ABSATR only where the template has no default)',
-    'the X value is compared for the (always scalar) first channel; frame numbers are compared with the recorded numbers, which need not be 1..n',
+    'the X value is compared when the first channel is scalar (8% of the frame types have an array first channel: values only); frame numbers are compared with the recorded numbers, which need not be 1..n',
 ]
 _LF = 'TotalDepth.RP66V1.core.LogicalFile'
 _LP = 'TotalDepth.RP66V1.core.LogPass'
@@ -152,7 +152,7 @@ class Run:
                 bad = []
                 if r.frame_number != fr.number:
                     bad.append('frame number %r, recorded %d' % (r.frame_number, fr.number))
-                if not (r.x_axis == x):
+                if fr.values[0].size == 1 and not (r.x_axis == x):      # an array first channel has no single X value: not asserted
                     bad.append('X value %r, first-channel value recorded %r' % (r.x_axis, x))
                 if pos != (rm.vr_position, rm.lrsh_position):
                     bad.append('position %r, written at %r' % (pos, (rm.vr_position, rm.lrsh_position)))
@@ -184,11 +184,20 @@ class Run:
               'channels_kind': chs_kind, 'frames': n}
         history.append(op)
         w = dict(base, history=list(history), call=op, indices=idxs[:100])
+        chs_arg = chs
+        if chs is not None and rng.random() < 0.4:
+            # the caller keeps one set object and edits it between calls (as a command line tool would): same object, new content
+            shared = self.__dict__.setdefault('_shared_sets', {}).setdefault(id(fa), set())
+            shared.clear()
+            shared.update(chs)
+            chs_arg = shared
+            op['channels_object'] = 'one set object edited in place between calls'
+            rec.cls('channels-object:shared-and-edited')
         try:
             if sel is None and chs is None and rng.random() < 0.5:
                 cnt = lf.populate_frame_array(fa)
             else:
-                cnt = lf.populate_frame_array(fa, sel, chs)
+                cnt = lf.populate_frame_array(fa, sel, chs_arg)
         except Exception as ex:  # noqa
             self.violation('populate_vs_model', 'raised', 'populate_frame_array(%s, %s, %r) raised %s: %s' % (
                 op['frame_type'], sel_desc, op['channels'], type(ex).__name__, ex), w, exc=ex)
@@ -261,6 +270,7 @@ def run_file(run, max_frames):
     from TotalDepth.RP66V1.core import LogicalFile
     from TotalDepth.common import Slice as S
     ctx, rec, rng = run.ctx, run.rec, run.rng
+    logpass.FIRST_CHANNEL_ARRAY_P = 0.08      # some unindexed frame types whose first channel is an array (also > 273 bytes)
     lrs, model = logpass.random_logpass_file(rng, max_frames=max_frames)
     data, fm = dlis.write_file_safe(rng, lrs)
     if any(fm.records[i].lr.encrypted != lrs[i].encrypted for i in range(len(lrs))):
